@@ -95,6 +95,14 @@ func ConcatItems[T any](items []T) (T, error) {
 	var cv reflect.Value
 	var err error
 
+	if typ.Kind() == reflect.Interface {
+		// the chunks of an interface-typed stream are concatenated by their dynamic type, the way the values under
+		// a key of a map[string]any are; chunks that have no common dynamic type keep the generic treatment below
+		if dv, ok := dynamicSliceValue(v); ok {
+			v, typ = dv, dv.Type().Elem()
+		}
+	}
+
 	// handle map kind
 	if typ.Kind() == reflect.Map {
 		cv, err = concatMaps(v)
@@ -110,6 +118,32 @@ func ConcatItems[T any](items []T) (T, error) {
 	// comma-ok: for an interface-typed T the concatenated value may be the nil interface
 	ret, _ := cv.Interface().(T)
 	return ret, nil
+}
+
+// dynamicSliceValue turns a slice of interface values that all have the same (non-nil) dynamic type into a slice of
+// that type.
+func dynamicSliceValue(v reflect.Value) (reflect.Value, bool) {
+	var typ reflect.Type
+	for i := 0; i < v.Len(); i++ {
+		e := v.Index(i)
+		if e.IsNil() {
+			return reflect.Value{}, false
+		}
+		if t := e.Elem().Type(); typ == nil {
+			typ = t
+		} else if t != typ {
+			return reflect.Value{}, false
+		}
+	}
+	if typ == nil {
+		return reflect.Value{}, false
+	}
+
+	ret := reflect.MakeSlice(reflect.SliceOf(typ), v.Len(), v.Len())
+	for i := 0; i < v.Len(); i++ {
+		ret.Index(i).Set(v.Index(i).Elem())
+	}
+	return ret, true
 }
 
 func concatMaps(ms reflect.Value) (reflect.Value, error) {
